@@ -336,7 +336,7 @@ func TestVerifC08(t *testing.T) {
 	if c08RingSlack != 5 {
 		r.Assume(fmt.Sprintf("ring slack derived from the package constants is %d (5 at the pinned commit)", c08RingSlack))
 	}
-	n := r.N(1600, 120000)
+	n := r.N(1600, 80000)
 	workers := 8
 	if r.Thorough() {
 		workers = 16
